@@ -136,7 +136,7 @@ where
         }
     }
     // sampled larger L, unsorted / duplicated index lists, None arguments
-    let big: &[usize] = if thorough { &[11, 32, 64, 170, 255, 256, 300, 1400] } else { &[11, 17, 40, 200] };
+    let big: &[usize] = if thorough { &[11, 32, 64, 170, 255, 256, 300, 1400] } else { &[11, 17, 40, 200, 257] };
     for &l in big {
         let (sk, pk) = rand_keypair::<CS>(h);
         let msgs = rand_msgs(h, l);
@@ -710,6 +710,23 @@ where
         t.extend_from_slice(&[0u8; 32]);
         t.extend_from_slice(&pb[pb.len() - 32..]);
         expect_reject::<CS>(h, "extend_scalar", &pk, &t, hdr.as_deref(), ph.as_deref(), &dm, &d);
+        // a whole 32-octet slot that is NOT a canonical scalar (r, r+1, ff..ff) inserted at every scalar boundary
+        let r_be: [u8; 32] = [0x73, 0xed, 0xa7, 0x53, 0x29, 0x9d, 0x7d, 0x48, 0x33, 0x39, 0xd8, 0x08, 0x09, 0xa1, 0xd8, 0x05, 0x53, 0xbd, 0xa4, 0x02, 0xff, 0xfe, 0x5b, 0xfe, 0xff, 0xff, 0xff, 0xff, 0x00, 0x00, 0x00, 0x01];
+        let mut r1_be = r_be;
+        r1_be[31] = 2;
+        for slot in [[0xffu8; 32], r_be, r1_be] {
+            for off in (144..=pb.len()).step_by(32) {
+                let mut t = pb[..off].to_vec();
+                t.extend_from_slice(&slot);
+                t.extend_from_slice(&pb[off..]);
+                let dd = dec(h, "proof", &t);
+                h.stat("C04.noncanonical_slot");
+                h.expect(!dd.is_ok(), "C04.noncanonical_slot", "proof decoder accepted an inserted 32-octet slot that is not a canonical scalar", &[h.last()]);
+                if dd.is_ok() {
+                    expect_reject::<CS>(h, "noncanonical_slot_verifies", &pk, &t, hdr.as_deref(), ph.as_deref(), &dm, &d);
+                }
+            }
+        }
         // +-k on every scalar
         for off in (144..pb.len()).step_by(32) {
             let mut arr = [0u8; 32];
